@@ -669,6 +669,9 @@ Proof.
   destruct (run st' r) as [st'' os]. exact IH.
 Qed.
 
+Theorem reachable_inv_init ops : InvSt (fst (run state_init ops)).
+Proof. apply reachable_inv. exact InvSt_init. Qed.
+
 (* no Rust panic (unchecked subtraction, slice bound, unreachable!) outside rollback *)
 Theorem no_host_panic st op :
   InvSt st -> op <> SRollback -> snd (step st op) <> OErr HostPanic.
